@@ -122,8 +122,11 @@ class Device:
         cmd = apdu[1]
         data = apdu[2:]
         key = (cmd, data[0] if data else None)
+        if key not in self.inject and (cmd, "*") in self.inject:
+            key = (cmd, "*")
         if key in self.inject:
-            return self.err(self.inject.pop(key))
+            v = self.inject.pop(key)
+            return self.err(v) if isinstance(v, int) else tuple(v)     # status word | ("T",) ("W",) ("R",)
         h = getattr(self, "cmd_%02x" % cmd, None)
         if h is None:
             return self.err(0x6D00)
@@ -323,13 +326,13 @@ class Device:
                 edl = struct.unpack("<H", sg["buf"][5:7])[0]
                 sg["total"] = pl + edl
             if (sg["total"] is not None and len(sg["buf"]) >= sg["total"]) or \
-                    ("tx" in self.early and len(sg["buf"]) >= self.early["tx"]):
+                    self._early_hit("tx", len(sg["buf"]), sg["total"]):
                 self.received["btc_payload"] = sg["buf"]
                 self.sg = {"stage": "receipt", "buf": b"", "total": None}
                 self.ask = self.policy.chunk(3)
                 return D(CLA, 0x02, 0x04, self.ask)
             rem = (sg["total"] - len(sg["buf"])) if sg["total"] is not None else 7
-            self.ask = self.policy.chunk(rem)
+            self.ask = self._early_cap("tx", self.policy.chunk(rem), len(sg["buf"]), sg["total"])
             return D(CLA, 0x02, 0x02, self.ask)
         if op == 0x04 and sg["stage"] == "receipt":
             if len(body) > self.ask:
@@ -338,7 +341,7 @@ class Device:
             if sg["total"] is None:
                 sg["total"] = rlp_total_length(sg["buf"])
             if (sg["total"] is not None and len(sg["buf"]) >= sg["total"]) or \
-                    ("receipt" in self.early and len(sg["buf"]) >= self.early["receipt"]):
+                    self._early_hit("receipt", len(sg["buf"]), sg["total"]):
                 self.received["receipt"] = sg["buf"]
                 self.sg = {"stage": "proof", "buf": b""}
                 self.ask = self.policy.chunk(1)
@@ -346,7 +349,7 @@ class Device:
             if len(body) == 0 and self.ask > 0:
                 return self.err(0x6A8A)      # client has nothing more: receipt RLP incomplete
             rem = (sg["total"] - len(sg["buf"])) if sg["total"] is not None else 3
-            self.ask = self.policy.chunk(rem)
+            self.ask = self._early_cap("receipt", self.policy.chunk(rem), len(sg["buf"]), sg["total"])
             return D(CLA, 0x02, 0x04, self.ask)
         if op == 0x08 and sg["stage"] == "proof":
             if len(body) > self.ask:
@@ -363,6 +366,21 @@ class Device:
             self.ask = self.policy.chunk(need)
             return D(CLA, 0x02, 0x08, self.ask)
         return self.err(0x6A89)
+
+    def _early_hit(self, stage, have, total):
+        """early[stage] = n >= 0: move on after n bytes; n < 0: move on -n bytes short of the total"""
+        if stage not in self.early:
+            return False
+        n = self.early[stage]
+        if n >= 0:
+            return have >= n
+        return total is not None and have >= total + n
+
+    def _early_cap(self, stage, ask, have, total):
+        n = self.early.get(stage)
+        if n is not None and n < 0 and total is not None and total + n > have:
+            return max(1, min(ask, total + n - have))
+        return ask
 
     @staticmethod
     def _proof_need(buf):
